@@ -7,23 +7,87 @@
 package c14
 
 import (
+	"os"
+	"strings"
+
 	"verif/harness/vf"
 )
 
 func init() {
 	vf.Register(&vf.CheckDef{ID: "C14", Level: "model_checking", Run: run,
-		Workers: map[string]vf.WorkerFunc{"stack": stackWorker}})
+		Workers: map[string]vf.WorkerFunc{"stack": stackWorker, "prog": progWorker}})
+}
+
+type progArgs struct {
+	Family string
+	Level  int
+	Size   int
+	Depth  int
+}
+
+const mineBlock = 64
+
+// progWorker enumerates one family; cases are sharded in blocks of mineBlock programs.
+func progWorker(w *vf.Worker) {
+	var a progArgs
+	_ = jsonUnmarshal(w.Args, &a)
+	cr := newCaseRunner(w)
+	defer cr.flush()
+	var n uint64
+	mine := false
+	only := os.Getenv("VERIF_C14_ONLY") // debug: substring of the program text
+	emit := func(pc *progCase) {
+		if n%mineBlock == 0 {
+			idx := n/mineBlock + 1
+			mine = w.Mine(idx)
+			if mine {
+				w.Begin(idx)
+			}
+		}
+		n++
+		if !mine {
+			return
+		}
+		if only != "" && !strings.Contains(unparse(pc.top, nil), only) {
+			return
+		}
+		w.Label(func() string { return pc.family + ": " + unparse(pc.top, nil) })
+		cr.run(pc)
+	}
+	switch a.Family {
+	case "scope":
+		genScopeFamily(a, emit)
+	}
+	w.Count("family:"+a.Family+":enumerated", int64(n)/int64(1)) // every shard enumerates everything; divided by shards in run()
+}
+
+func genScopeFamily(a progArgs, emit func(*progCase)) {
+	g := scopeGen(a.Level)
+	obs := []expr{loc("x"), loc("y")}
+	for n := 0; n <= a.Size; n++ {
+		g.seqs(n, a.Depth, false, nil, func(b []stmt) {
+			top := numberProgram(b, obs, true)
+			emit(&progCase{family: "scope", size: n, top: top, opts: runOpts{q: true}})
+		})
+	}
 }
 
 func run(c *vf.Ctx) {
 	c.Rule = "TODO"
 	type sa struct{ Level, Depth int }
+	if os.Getenv("VERIF_C14_SKIP_STACK") == "" {
+		if c.Quick() {
+			c.RunPool(vf.PoolSpec{Worker: "stack", Shards: 64, Args: sa{0, 7}})
+			c.RunPool(vf.PoolSpec{Worker: "stack", Shards: 64, Args: sa{1, 6}})
+		} else {
+			c.RunPool(vf.PoolSpec{Worker: "stack", Shards: 64, Args: sa{0, 9}})
+			c.RunPool(vf.PoolSpec{Worker: "stack", Shards: 64, Args: sa{2, 7}})
+		}
+	}
 	if c.Quick() {
-		c.RunPool(vf.PoolSpec{Worker: "stack", Shards: 64, Args: sa{0, 7}})
-		c.RunPool(vf.PoolSpec{Worker: "stack", Shards: 64, Args: sa{1, 6}})
+		c.RunPool(vf.PoolSpec{Worker: "prog", Shards: 64, Args: progArgs{"scope", 0, 3, 2}})
 	} else {
-		c.RunPool(vf.PoolSpec{Worker: "stack", Shards: 64, Args: sa{0, 9}})
-		c.RunPool(vf.PoolSpec{Worker: "stack", Shards: 64, Args: sa{2, 7}})
+		c.RunPool(vf.PoolSpec{Worker: "prog", Shards: 64, Args: progArgs{"scope", 1, 4, 3}})
 	}
 	c.DistinctNontrivial = c.Evaluations
 }
